@@ -783,6 +783,39 @@ fn main() {
     });
 }
 ''')
+P("C19", "unsize_deref_string_str", "E0308|E0277", "unsize! through a Deref coercion (String to str): the result would point into the heap buffer, not at the Gc value", '''
+use gc_arena::unsize;
+fn main() {
+    gc_arena::arena::rootless_mutate(|mc| {
+        #[cfg(bad)]
+        let _d: Gc<str> = unsize!(Gc::new(mc, String::from("x")) => str);
+        #[cfg(not(bad))]
+        let _d: Gc<dyn std::fmt::Display> = unsize!(Gc::new(mc, String::from("x")) => dyn std::fmt::Display);
+    });
+}
+''')
+P("C19", "unsize_deref_vec_slice", "E0308|E0277", "unsize! through a Deref coercion (Vec<u8> to [u8])", '''
+use gc_arena::unsize;
+fn main() {
+    gc_arena::arena::rootless_mutate(|mc| {
+        #[cfg(bad)]
+        let _d: Gc<[u8]> = unsize!(Gc::new(mc, vec![1u8, 2]) => [u8]);
+        #[cfg(not(bad))]
+        let _d: Gc<[u8]> = unsize!(Gc::new(mc, [1u8, 2]) => [u8]);
+    });
+}
+''')
+P("C19", "unsize_deref_box_inner", "E0308|E0277", "unsize! through a Deref coercion (Box<i32> to i32, on a GcWeak)", '''
+use gc_arena::unsize;
+fn main() {
+    gc_arena::arena::rootless_mutate(|mc| {
+        #[cfg(bad)]
+        let _d: GcWeak<i32> = unsize!(Gc::downgrade(Gc::new(mc, Box::new(5i32))) => i32);
+        #[cfg(not(bad))]
+        let _d: GcWeak<dyn std::fmt::Debug> = unsize!(Gc::downgrade(Gc::new(mc, Box::new(5i32))) => dyn std::fmt::Debug);
+    });
+}
+''')
 P("C19", "legit_conversions", None, "documented conversions keep compiling", '''
 use gc_arena::unsize;
 fn main() {
